@@ -12,10 +12,11 @@ def handle (input impl : Json) : R Reply := do
   let agreed ← listF checkResult input "agreed"
   let got ← listF (listOf checkResult) impl "reports"
   let failAt ← asNat (fieldD input "encFailAt" (.num 0))
-  let (want, wantErr) := reportsCall cfg agreed failAt
+  let bad := (fieldD input "badOutcome" (.str "")).getStr?.toOption.getD ""
+  let (want, wantErr) := reportsOnBytes cfg (bad == "") agreed failAt
   -- glue: what comes back to libocr is, report by report and in order, what the encoder was handed; nothing failed
   let enc ← listOf (listOf checkResult) (fieldD impl "encoded" (.arr #[]))
-  let encOk := match fieldD impl "encoded" .null with | .null => true | _ => decide (enc = encoderCalls cfg agreed failAt)
+  let encOk := match fieldD impl "encoded" .null with | .null => true | _ => decide (enc = if bad == "" then encoderCalls cfg agreed failAt else [])
   let nrep ← asNat (fieldD impl "nreports" (.num got.length))
   let errS := match fieldD impl "err" (.str "") with | .str s => s | _ => "?"
   let glueOk := encOk && decide (nrep = got.length) && ((errS != "") == wantErr)
@@ -25,6 +26,7 @@ def handle (input impl : Json) : R Reply := do
   let si := (errS != "") || spec cfg agreed got
   let tags :=
     (if want.length > 1 then ["multi-report"] else []) ++
+    (if bad != "" then ["outcome-refused:" ++ bad] else []) ++
     (if decide (failAt > 0) then [if wantErr then s!"encoder-fails:call-{min failAt 3}{if failAt > 3 then "+" else ""}" else "encoder-armed-not-reached"] else []) ++
     (if agreed.any (fun r => decide (r.gas + cfg.overhead > cfg.gasLimit)) then ["over-limit-item"] else []) ++
     (if !decide ((agreed.map (·.upkeepID)).Nodup) then ["repeated-upkeep"] else []) ++
